@@ -12,7 +12,7 @@ RULE = ("exhaustive ordered operand pairs (string x phase) for N<=3, random host
         "distinct = distinct (sub-check, operands) digests")
 ASSUMPTIONS = ["oracle: 2x2 literal Pauli matrices + Kronecker products; independent 4x4 one-qubit table",
                "phases compared mod 4; dtypes not judged"]
-REQUIRED_SUBS = ["matmul.pure", "chain.operand", "matmul.table", "matmul.dense", "acq", "ipow", "chain.drift", "assoc", "square", "batch_dot",
+REQUIRED_SUBS = ["matmul.pure", "matmul.listop", "chain.operand", "matmul.table", "matmul.dense", "acq", "ipow", "chain.drift", "assoc", "square", "batch_dot",
                  "combine.chain", "acq_mat"]
 
 
@@ -172,6 +172,38 @@ def run_rand(shard, rec, B):
                 rec.check("matmul.pure", np.array_equal(ga, g1) and pa == p1 and np.array_equal(gb, g2) and pb == p2
                           and np.array_equal(rg, eg) and rp == int(ep), case, nontrivial(g1, p1, g2, p2),
                           expected=case[:2], observed=[O.show(ga, pa), O.show(gb, pb)])
+    # operands that the library itself hands out: elements of a list (views of the list's arrays), Paulis that were rotated /
+    # transformed before; products are formed several times and the list is re-observed afterwards
+    for t in range(max(100, n // 20)):
+        N = Ns[t % len(Ns)]
+        L = int(rng.integers(2, 6))
+        gs, ps = gen.rand_list(rng, L, N), rng.integers(0, 4, L)
+        PLs = B.PauliList(gs.copy(), ps.copy())
+        i, j = int(rng.integers(L)), int(rng.integers(L))
+        case = ["list operands", O.show(gs[i], ps[i]), O.show(gs[j], ps[j])]
+        ok, R = rec.attempt("matmul.listop", case, lambda: (PLs[i] @ PLs[j], PLs[i] @ PLs[j], PLs[j] @ PLs[i]))
+        if ok:
+            eg, ep = O.mul(gs[i], ps[i], gs[j], ps[j])
+            e2g, e2p = O.mul(gs[j], ps[j], gs[i], ps[i])
+            (ag, ap), (bg, bp), (cg, cp) = B.gp(R[0]), B.gp(R[1]), B.gp(R[2])
+            lg, lp = B.gsps(PLs)
+            rec.check("matmul.listop", np.array_equal(ag, eg) and ap == int(ep) and np.array_equal(bg, eg) and bp == int(ep)
+                      and np.array_equal(cg, e2g) and cp == int(e2p) and np.array_equal(lg, gs) and np.array_equal(lp, ps % 4),
+                      case, nontrivial(gs[i], ps[i], gs[j], ps[j]), expected=[O.show(eg, ep), "list unchanged"],
+                      observed=[O.show(ag, ap), O.show(bg, bp), [O.show(x, y) for x, y in zip(lg, lp)]])
+        G, PG = gen.rand_nonid(rng, N), 2 * int(rng.integers(2))
+        A = B.Pauli(gs[i].copy(), int(ps[i]))
+        ok, _ = rec.attempt("matmul.listop", case, lambda: A.rotate_by(B.Pauli(G, PG)))
+        if ok:
+            ag0, ap0 = B.gp(A)
+            Bq = B.Pauli(gs[j].copy(), int(ps[j]))
+            ok, R = rec.attempt("matmul.listop", case, lambda: (A @ Bq, A @ Bq))
+            if ok:
+                eg, ep = O.mul(ag0, ap0, gs[j], ps[j])
+                (ag, ap), (bg, bp) = B.gp(R[0]), B.gp(R[1])
+                a1g, a1p = B.gp(A)
+                rec.check("matmul.listop", np.array_equal(ag, eg) and ap == int(ep) and np.array_equal(bg, eg) and bp == int(ep)
+                          and np.array_equal(a1g, ag0) and a1p == ap0, ["rotated operand", O.show(ag0, ap0), O.show(gs[j], ps[j])], True)
     # chains: running product, checked at every step (phase drift)
     for c in range(4):
         N = [3, 7, 33, 12][c]
